@@ -26,6 +26,18 @@ CHECKS = {
         "Every saved file (both xref formats, plain and 1..3 incremental updates) is parsed by a reader that shares no code with lopdf, tolerates nothing and accounts for every byte; the recovered document must equal the saved one.",
         "Trusted: strict reader (self-tested against the reference writer), reference codecs.",
     ),
+    "C04": (
+        "exploration", "DESIGN.md §4 C04, §2.1",
+        "process-level runtime monitor (exit status/signal, panic hook with backtrace, per-case CPU time from /proc, counting global allocator, gdb stack triage) over isolated workers driving hostile inputs into 8 byte-level entry-point groups",
+        "16 isolated worker processes call every byte-level entry point on structure-aware mutations of valid inputs and on size-parameterised adversarial templates, built with overflow checks on; a supervisor decides crash / panic / CPU bound exceeded / allocation unrelated to input size per case. Held = no such event on the cases of this run (counts per entry point and mutator in the evidence).",
+        "Says nothing about inputs not generated. CPU bound 5 s + 50 us/byte; allocation bound max(64 MiB, 4096 x len) per request, 256 MiB + 8192 x len peak.",
+    ),
+    "C13": (
+        "exploration", "DESIGN.md §4 C13, §2.1",
+        "process-level runtime monitor (signals, panic hook, CPU time, allocator) around every public read-only query on typed-chaos object graphs and long-chain templates",
+        "Isolated workers build Document values whose query-relevant keys are bound plausibly or chaotically (random kinds, dangling/self/cyclic references) plus chains and cycles up to 200,000 links, and call every public read-only query; the supervisor decides crash / panic / CPU bound / allocation per document.",
+        "Says nothing about graphs not generated. CPU bound 5 s + 100 us per object for the whole bundle of queries.",
+    ),
     "C07": (
         "exploration", "DESIGN.md §4 C07",
         "runtime monitor: latest-wins sequential model over recorded revision histories (reference-writer files, every prefix loaded) + per-step invariants on IncrementalDocument saves checked with the strict reader",
